@@ -97,6 +97,19 @@ def run(ctx):
         if rng.random() < 0.15:
             opts['symbolcls'] = 'sympy'
         add(f'c{i}', u, opts, progs, typed_history(rng, d, 5 if q else 8, progs))
+    # value-induced failures: one key pattern, values for which the generated division works and values for which it raises
+    # at RUN time (a null divisor e1 + e2 in signature (+, -)), alternating; nothing may be generated again afterwards
+    for i in range(4 if q else 24):
+        sig = rng.choice([[1, -1], [1, -1, 1], [-1, 1, 0]])
+        num = list(P.random_key_tuple(rng, len(sig), 3, 1))
+        good = {'keys': [1, 2], 'vals': [rng.choice([2, 3]), 1]}
+        bad = {'keys': [1, 2], 'vals': [rng.choice([1, -1, 2]), 0]}
+        bad['vals'][1] = bad['vals'][0] * rng.choice([1, -1])          # (a e1 + b e2)^2 = a^2 - b^2 = 0
+        hist = []
+        for spec in (good, bad, good, bad, good):
+            hist.append({'t': 'T1', 'kind': 'op', 'op': rng.choice(['div', 'div', 'mulinv']) if False else 'div', 'args': [num, dict(spec)], 'params': [], 'mode': 'num'})
+            hist.append({'t': 'T1', 'kind': 'op', 'op': 'inv', 'args': [dict(spec)], 'params': [], 'mode': 'num'})
+        add(f'v{i}', ucfg(sig=sig), {'wrapper': i % 2 == 0}, {}, hist)
     res = run_sessions(jobs)
     vfiles = [r['values'] for r in res if r['n_values']]
     pfiles = [r['proto'] for r in res if r['n_proto']]
